@@ -155,7 +155,7 @@ func getFloatToStringFunction() schema.CallableFunction {
 	funcSchema, err := schema.NewCallableFunction(
 		"floatToString",
 		[]schema.Type{schema.NewFloatSchema(nil, nil, nil)},
-		schema.NewStringSchema(nil, nil, regexp.MustCompile(`^\d+\.\d*$`)),
+		schema.NewStringSchema(nil, nil, regexp.MustCompile(`^(?:-?\d+(?:\.\d*)?|NaN|[-+]Inf)$`)),
 		false,
 		schema.NewDisplayValue(
 			schema.PointerTo("floatToString"),
